@@ -67,7 +67,7 @@ def run(ctx: Ctx):
         "recovered percent-decoded (that is how PATH_INFO is defined) and their reconstructed URL is not judged",
     ]
     # ---- 1. TLC: implementation-shaped conversions satisfy the contract; dispatcher loop satisfies its contract
-    for cfg in (("MCQ_syms", "MCQ_chars", "MCQ_utf8", "MCQ_dance") if q else ("MCT_syms", "MCT_chars", "MCT_utf8", "MCQ_dance")):
+    for cfg in (("MCQ_syms", "MCQ_chars", "MCQ_utf8", "MCQ_dance") if q else ("MCT_syms", "MCT_syms4", "MCT_chars", "MCT_utf8", "MCQ_dance")):
         ctx.model_check(AREA, "MCIri", cfg, timeout=3000)
     for cfg in (("MCQ_disp",) if q else ("MCT_disp", "MCT_disp3")):
         ctx.model_check(AREA, "MCDispatcher", cfg, timeout=3000)
@@ -108,16 +108,23 @@ def run(ctx: Ctx):
     for _ in range(300 if q else 5000):
         jobs.append(["dance", {"s": ir.gen_component(rng, "frag", 6, escapes=False), "src": "seeded"}])
     lines = _judge(ctx, jobs)
-    for j in (0, len(jobs) // 3, len(jobs) // 2, len(jobs) - 400, len(jobs) - 1700):
-        job, ln = jobs[j], lines[j]
-        ctx.sample({"job": job[0], "in": {k: v for k, v in job[1].items()}, "out": {k: _txt(v) for k, v in ln.items()
-                   if k in ("U", "I", "rurl", "rpath", "script1", "pinfo1", "d")}})
+    shown = set()
+    for job, ln in zip(jobs, lines):
+        tag = (job[0], job[1]["src"])
+        if tag in shown or not _nontrivial(job):
+            continue
+        shown.add(tag)
+        ctx.sample({"job": job[0], "in": dict(job[1]), "out": {k: _txt(v) for k, v in ln.items()
+                   if k in ("U", "I", "rurl", "rpath", "rhost", "app", "script1", "pinfo1", "d")}}, limit=8)
     # ---- 4. the judge rejects a corrupted record (non-vacuity of the judge)
     x, u, a = "http://bücher.example/p%C3%A4th%2Fx?k=%26v#fr%C3%A4g", "bücher.example", "xn--bcher-kva.example"
     good = ir.rec_iri(x, u, a)
-    bad = dict(good, I=[c for c in good["I"]])
-    k = bad["I"].index(ord("%"))
-    bad["I"][k:k + 3] = [ord("/")]          # pretend uri_to_iri had unquoted %2F in the path
+    bad = dict(good)
+    for f in ("I", "II"):                    # pretend uri_to_iri had unquoted %2F in the path
+        v = list(good[f])
+        k = v.index(ord("%"))
+        v[k:k + 3] = [ord("/")]
+        bad[f] = v
     good["t"], good["i"], bad["t"], bad["i"] = 0, 0, 1, 0
     rej = ctx.judge(AREA, "IriTrace", [good, bad])
     ctx.notes["corrupted_record_rejected"] = sorted({r["clause"] for r in rej if r["t"] == 1})
